@@ -19,6 +19,7 @@ package rawmessagesfilter
 //@   ensures caller.state.height == old(caller.state.height) ==> (forall k int :: has(caller.futureCache, k) == old(has(caller.futureCache, k)) && caller.futureCache[k] == old(caller.futureCache[k]))
 //@   ensures caller.state.height >= old(caller.state.height)
 //@   ensures lastRoundHeight >= old(lastRoundHeight) && lastCommitHeight >= old(lastCommitHeight) && (old(lastRoundHeight) <= old(caller.state.height) ==> lastRoundHeight <= caller.state.height)
+//@   ensures old(lastCommitHeight) <= old(caller.state.height) ==> lastCommitHeight <= caller.state.height
 //@   ensures caller.state.height == old(caller.state.height) ==> lastRoundHeight == old(lastRoundHeight)
 //@   ensures caller.state == old(caller.state) && caller.futureCache == old(caller.futureCache)
 //@   ensures forall k int, i int :: has(caller.futureCache, k) && 0 <= i && i < len(caller.futureCache[k]) ==> caller.futureCache[k][i].BlockHeight() == k && caller.futureCache[k][i].InstanceId() == caller.instanceId && caller.futureCache[k][i].SenderMemberId() != caller.myMemberId
@@ -38,6 +39,7 @@ package rawmessagesfilter
 
 //@ func (*RawMessageFilter).HandleConsensusRawMessage
 //@   ensures [height-forward] f.state.height >= old(f.state.height) && f.state == old(f.state) && lastRoundHeight >= old(lastRoundHeight) && (old(lastRoundHeight) <= old(f.state.height) ==> lastRoundHeight <= f.state.height)
+//@   ensures [commits-below-state] lastCommitHeight >= old(lastCommitHeight) && (old(lastCommitHeight) <= old(f.state.height) ==> lastCommitHeight <= f.state.height) && ndelivered >= old(ndelivered)
 //@   ensures [no-round-without-height-change] f.state.height == old(f.state.height) ==> lastRoundHeight == old(lastRoundHeight)
 //@   props C17 C08
 //@   modifies state.State.height, state.State.view, rawmessagesfilter.RawMessageFilter.consensusMessagesHandler, rawmessagesfilter.RawMessageFilter.latestFutureBlockHeight, M:Int:Slice_Iface, ghost:ndelivered, ghost:delivered, ghost:lastRoundHeight, ghost:lastCommitHeight, M:S_state_HeightView:Int
@@ -58,6 +60,7 @@ package rawmessagesfilter
 
 //@ func (*RawMessageFilter).ConsumeCacheMessages
 //@   ensures [height-forward] f.state.height >= old(f.state.height) && f.state == old(f.state) && lastRoundHeight >= old(lastRoundHeight) && (old(lastRoundHeight) <= old(f.state.height) ==> lastRoundHeight <= f.state.height)
+//@   ensures [commits-below-state] lastCommitHeight >= old(lastCommitHeight) && (old(lastCommitHeight) <= old(f.state.height) ==> lastCommitHeight <= f.state.height) && ndelivered >= old(ndelivered)
 //@   ensures [no-round-without-height-change] f.state.height == old(f.state.height) ==> lastRoundHeight == old(lastRoundHeight)
 //@   props C17
 //@   modifies state.State.height, state.State.view, rawmessagesfilter.RawMessageFilter.consensusMessagesHandler, rawmessagesfilter.RawMessageFilter.latestFutureBlockHeight, M:Int:Slice_Iface, ghost:ndelivered, ghost:delivered, ghost:lastRoundHeight, ghost:lastCommitHeight, M:S_state_HeightView:Int
@@ -71,6 +74,7 @@ package rawmessagesfilter
 //@   loop range messages
 //@     invariant [frame] f.state == old(f.state) && f.futureCache == old(f.futureCache)
 //@     invariant [height-monotone] f.state.height >= height && height == old(f.state.height)
+//@     invariant [commits] lastCommitHeight >= old(lastCommitHeight) && (old(lastCommitHeight) <= old(f.state.height) ==> lastCommitHeight <= f.state.height)
 //@     invariant [rounds] lastRoundHeight >= old(lastRoundHeight) && (old(lastRoundHeight) <= old(f.state.height) ==> lastRoundHeight <= f.state.height) && (f.state.height == old(f.state.height) ==> lastRoundHeight == old(lastRoundHeight))
 //@     invariant [messages-are-the-cached-ones] messages == old(f.futureCache[old(f.state.height)])
 //@     invariant [log.count] consensusMessagesHandler != nil && f.state.height == height ==> ndelivered == old(ndelivered) + $i && f.consensusMessagesHandler == consensusMessagesHandler
